@@ -637,6 +637,153 @@ pub fn stale_exit_race(run: &mut Run, cases: usize) -> anyhow::Result<()> {
     Ok(())
 }
 
+/// Rounds of connect / close on a multi-thread runtime while other OS threads hammer the read-side API
+/// (`peers()`, `peer()`): the lookups must not change what is listed or announced, and the write-side API
+/// must not silently give up under contention.
+/// `closer`: "remote" (the other node disconnects: the entry leaves through the handler) or "local"
+/// (explicit `disconnect` on the observed node).
+pub fn contention_rounds(run: &mut Run, rounds: usize, closer: &'static str) -> anyhow::Result<()> {
+    run.mark(&format!("scenario contention_rounds/{closer}"));
+    let seed = run.seed ^ 0xC0A7;
+    let rt = tokio::runtime::Builder::new_multi_thread().worker_threads(4).enable_all().build()?;
+    let stop = Arc::new(std::sync::atomic::AtomicBool::new(false));
+    let stop2 = stop.clone();
+    let res: anyhow::Result<Vec<serde_json::Value>> = rt.block_on(async move {
+        let fabric = Fabric::new(seed);
+        let a = start_node(&fabric, seed, 1, config_idle(30_000))?;
+        let b = start_node(&fabric, seed, 2, config_idle(30_000))?;
+        let (mut rx, _) = a.net.subscribe()?;
+        let mut pollers = vec![];
+        for k in 0..3 {
+            let (net, other, stop) = (a.net.clone(), b.id, stop2.clone());
+            pollers.push(std::thread::spawn(move || {
+                let mut n = 0u64;
+                while !stop.load(std::sync::atomic::Ordering::Relaxed) {
+                    if k == 0 {
+                        let _ = net.peers();
+                    } else {
+                        let _ = net.peer(other);
+                    }
+                    n += 1;
+                    if n % 64 == 0 {
+                        std::thread::yield_now();
+                    }
+                }
+            }));
+        }
+        let mut problems = vec![];
+        let mut events: Vec<PeerEvent> = vec![];
+        for round in 0..rounds {
+            if tokio::time::timeout(Duration::from_secs(5), a.net.connect_with_peer_id(b.addr, b.id)).await.map(|r| r.is_err()).unwrap_or(true) {
+                problems.push(json!({"kind": "connect failed or hung on a fault-free network", "round": round}));
+                break;
+            }
+            // let B register the connection (it does so after A consumed the acknowledgement)
+            for _ in 0..200 {
+                if b.net.peers().contains(&a.id) {
+                    break;
+                }
+                tokio::time::sleep(Duration::from_millis(2)).await;
+            }
+            if closer == "local" {
+                let r = a.net.disconnect(b.id);
+                let listed = a.net.peers().contains(&b.id);
+                if r.is_err() || listed {
+                    problems.push(json!({"kind": "explicit disconnect did not remove the peer at once (under concurrent readers)", "round": round, "result_ok": r.is_ok(), "still_listed": listed}));
+                    break;
+                }
+            } else {
+                let _ = b.net.disconnect(a.id);
+            }
+            // A announces NewPeer then exactly one LostPeer for this round
+            let deadline = tokio::time::Instant::now() + Duration::from_secs(3);
+            let mut got_lost = false;
+            while !got_lost {
+                match tokio::time::timeout_at(deadline, rx.recv()).await {
+                    Ok(Ok(e)) => {
+                        got_lost = matches!(&e, PeerEvent::LostPeer(p, r) if *p == b.id && (closer != "local" || *r == DisconnectReason::Requested));
+                        events.push(e);
+                    }
+                    _ => break,
+                }
+            }
+            if !got_lost || a.net.peers().contains(&b.id) {
+                problems.push(json!({"kind": if closer == "local" { "explicit disconnect was not announced with LostPeer(Requested)" } else { "a connection closed by the remote was not announced / unlisted" }, "round": round, "still_listed": a.net.peers().contains(&b.id)}));
+                break;
+            }
+            // wait until B has let go as well, so that the next round starts from scratch
+            for _ in 0..500 {
+                if !b.net.peers().contains(&a.id) {
+                    break;
+                }
+                tokio::time::sleep(Duration::from_millis(2)).await;
+            }
+        }
+        stop2.store(true, std::sync::atomic::Ordering::Relaxed);
+        for p in pollers {
+            let _ = p.join();
+        }
+        tokio::time::sleep(Duration::from_millis(100)).await;
+        let (more, _) = drain(&mut rx);
+        events.extend(more);
+        match replay_strict(&[], &events) {
+            Some(set) if set == a.net.peers().into_iter().collect() => {}
+            Some(_) => problems.push(json!({"kind": "event log does not replay to the listing (under concurrent lookups)"})),
+            None => problems.push(json!({"kind": "event log does not alternate: a listing change without its event (under concurrent lookups)", "events": events.iter().rev().take(6).map(ev_str).collect::<Vec<_>>()})),
+        }
+        Ok(problems)
+    });
+    stop.store(true, std::sync::atomic::Ordering::Relaxed);
+    let problems = res?;
+    rt.shutdown_timeout(Duration::from_secs(3));
+    run.count(&format!("contention-rounds/{closer}"), if problems.is_empty() { "clean" } else { "problem" });
+    for p in problems {
+        run.oracle_fail(p);
+    }
+    run.eval(&format!("contention{closer}"), true);
+    Ok(())
+}
+
+/// Dialling a peer that is already connected (replacement) leaves the pair connected: the wind-down of
+/// the replaced connection must not disturb its replacement.
+fn redial_keeps_connection(run: &mut Run, cases: usize) -> anyhow::Result<()> {
+    for case in 0..cases {
+        run.mark(&format!("scenario redial_keeps_connection case {case}"));
+        let seed = run.seed ^ 0x2ED1 ^ (case as u64);
+        let rt = paused_rt();
+        let res: anyhow::Result<serde_json::Value> = rt.block_on(async move {
+            let fabric = Fabric::new(seed);
+            let a = start_node(&fabric, seed, 1, config_idle(60_000))?;
+            let b = start_node(&fabric, seed, 2, config_idle(60_000))?;
+            let mut la = NodeLog::new(&a.net);
+            let mut lb = NodeLog::new(&b.net);
+            a.net.connect_with_peer_id(b.addr, b.id).await?;
+            tokio::time::sleep(Duration::from_millis(200)).await;
+            let mk = |id: &str| Request::new(Bytes::from_static(b"x")).with_header("x-id", id);
+            let r0 = a.net.rpc(b.id, mk("first")).await.is_ok();
+            // the second dial: same direction, or the reverse one
+            let second = if case % 2 == 0 { a.net.connect_with_peer_id(b.addr, b.id).await.is_ok() } else { b.net.connect_with_peer_id(a.addr, a.id).await.is_ok() };
+            tokio::time::sleep(Duration::from_secs(2)).await;
+            la.pump();
+            lb.pump();
+            let r1 = tokio::time::timeout(Duration::from_secs(5), a.net.rpc(b.id, mk("ab"))).await.map(|r| r.is_ok()).unwrap_or(false);
+            let r2 = tokio::time::timeout(Duration::from_secs(5), b.net.rpc(a.id, mk("ba"))).await.map(|r| r.is_ok()).unwrap_or(false);
+            Ok(json!({"first_rpc": r0, "second_dial_ok": second, "a_lists_b": a.net.peers().contains(&b.id), "b_lists_a": b.net.peers().contains(&a.id), "rpc_a_to_b": r1, "rpc_b_to_a": r2,
+                      "events_a": la.events.iter().map(ev_str).collect::<Vec<_>>(), "events_b": lb.events.iter().map(ev_str).collect::<Vec<_>>()}))
+        });
+        drop(rt);
+        let o = res?;
+        let tail_new = |k: &str| o[k].as_array().and_then(|v| v.last()).and_then(|e| e.as_str()).map(|e| e.starts_with("new:")).unwrap_or(false);
+        let ok = ["first_rpc", "second_dial_ok", "a_lists_b", "b_lists_a", "rpc_a_to_b", "rpc_b_to_a"].iter().all(|k| o[*k] == json!(true)) && tail_new("events_a") && tail_new("events_b");
+        if !ok {
+            run.oracle_fail(json!({"kind": "dialling an already connected peer left the pair disconnected or disturbed (the end of a replaced connection must not affect its replacement)", "case": case, "observed": o}));
+        }
+        run.count("redial-keeps-connection", if ok { "ok" } else { "broken" });
+        run.eval(&format!("redial{case}"), true);
+    }
+    Ok(())
+}
+
 pub fn run_c04(run: &mut Run, replay: Option<&std::path::Path>) -> anyhow::Result<()> {
     let seed = run.seed;
     let (nseq, len, nstress) = if run.quick() { (260, 22, 150) } else { (6000, 40, 1500) };
@@ -661,6 +808,8 @@ pub fn run_c04(run: &mut Run, replay: Option<&std::path::Path>) -> anyhow::Resul
     network_logs(run, if run.quick() { 25 } else { 400 })?;
     blocked_handler_exit(run, if run.quick() { 2 } else { 8 })?;
     stale_exit_race(run, if run.quick() { 2 } else { 8 })?;
+    redial_keeps_connection(run, if run.quick() { 4 } else { 40 })?;
+    contention_rounds(run, if run.quick() { 200 } else { 2000 }, "remote")?;
     Ok(())
 }
 
